@@ -509,12 +509,11 @@ def build_rules(ck, T):
             if S.ck.prop == 'C01':
                 return      # declining is always sound; whether the pattern must be rewritten is C07/C12's matter
             legit = z_or(naxes > 1, naxes == 0, z_not(same_shapes))
-            if uniq_case == 1:
-                # the property wants the diagonal of multiplicities for every single indexed axis
-                S.oblige('post', legit, finding=F_UNIQUE, hint=(n == 1),
-                         tag='declines-only-for-several-indexed-axes-or-leaf-shapes (unique_indices set)')
-            else:
-                S.oblige('post', legit, tag='declines-only-for-several-indexed-axes-or-leaf-shapes')
+            # the property wants the diagonal of multiplicities for every single indexed axis, whatever unique_indices says
+            # (the decline under unique_indices was finding C12-unique-pair-not-reduced, repaired in /repo)
+            S.oblige('post', legit, hint=(n == 1) if uniq_case == 1 else None,
+                     tag='declines-only-for-several-indexed-axes-or-leaf-shapes'
+                         + (' (unique_indices set)' if uniq_case == 1 else ''))
             return
         if not out.normal:
             S.oblige('exc', False, tag=f'undeclared-{out.value.name} (a single non-unique indexed axis is an integer array inside the leaf rank)')
@@ -574,7 +573,10 @@ def build_rules(ck, T):
             hint_b = z3.And(hint_b, ug['D'] == 3, ug['UF'][0] == -1, ug['UF'][1] == 0, ug['UF'][2] == 1, ug['Pos'](1) == 2,
                             ug['Pos'](-1) == 0)
         hint = z3.And(size == 2, n == 1, v == 1, z3.Or(hint_a, hint_b))
-        goal = cov.elems[v] == IX.Mult(t, v) + IX.Mult(t, v - size)
+        # number of selections of position v: entries v and v - size of an integer array, Sel for an int / slice / mask
+        selected = z3.If(IX.is_iarr(t), IX.Mult(t, v) + IX.Mult(t, v - size), IX.Sel(t, size, v))
+        S.inputs['kind_of_the_indexed_item'] = IX.f_kind(t)
+        goal = cov.elems[v] == selected
         S.oblige('post', goal, finding=F_ALIAS, hint=hint, tag='coverage[v]-is-the-number-of-entries-selecting-position-v')
     for uc in (0, 1):
         for nl in (1, 2):
